@@ -634,6 +634,7 @@ void DumpSnap(State* state, Builder* builder, vector<string>* ev) {
     l += " hash=" + u64hex(e->is_phony() ? 0 : BuildLog::LogEntry::HashCommand(e->EvaluateCommand(true)));
     l += string(" restat=") + (e->GetBindingBool("restat") ? "1" : "0") + " generator=" + (e->GetBindingBool("generator") ? "1" : "0");
     l += " deps=" + hex(e->GetBinding("deps")) + " depfile=" + hex(e->GetUnescapedDepfile());
+    l += string(" ddpend=") + (!e->dyndep_ ? "-" : e->dyndep_->dyndep_pending() ? "1" : "0");   // Node::dyndep_pending_ of the statement's dyndep file
     ev->push_back(l);
   }
   for (Node* n : state->paths_.empty() ? vector<Node*>() : vector<Node*>()) (void)n;
